@@ -1,0 +1,83 @@
+//go:build verif
+
+// Contracts for the verification machinery in /verif (govc). This file is only compiled with -tags verif;
+// it adds no behaviour to the package. Syntax: see /verif/DESIGN.md, Appendix A.
+package appendable
+
+// verifAssume / verifAssert are the harness primitives: govc treats them as assumption and obligation;
+// natively (replays) a violated assertion panics with its label.
+func verifAssume(c bool) {
+	if !c {
+		panic("verifAssume: precondition of the harness not met")
+	}
+}
+
+func verifAssert(label string, c bool) {
+	if !c {
+		panic("verifAssert violated: " + label)
+	}
+}
+
+// ---- C16: Metadata decoding (metadata.go) ----------------------------------------------------------------------
+// The only in-module caller of ReadFrom is NewMetadata (m.data freshly made, r = bufio.NewReader(...) != nil).
+// io.Reader.Read is an external interface method: the engine treats it as havoc (it cannot carry a contract).
+
+//@ func (*Metadata).Get
+//@   assigns nothing
+
+//@ func (*Metadata).GetInt
+//@   assigns nothing
+
+//@ func (*Metadata).GetBool
+//@   assigns nothing
+
+//@ func readField
+//@   requires r != nil
+//@   inline
+
+//@ func (*Metadata).ReadFrom
+//@   requires m.data != nil
+//@   requires r != nil
+//@   loop 1 invariant range: 0 <= i
+//@   loop 1 decreases len - i
+
+// ---- C16: Reader (reader.go) ------------------------------------------------------------------------------------
+// Representation invariant of Reader (established by NewReaderFrom for size >= 0 and a non-nil ReaderAt, kept by
+// Reset and by every Read* method). Lower-case on purpose: the engine unfolds only functions named spec_*.
+func spec_readerWF(r *Reader) bool {
+	return r.rAt != nil && 0 <= r.readIndex && r.readIndex <= r.dataIndex && r.dataIndex <= len(r.data)
+}
+
+//@ func (*Reader).Read
+//@   requires spec_readerWF(r)
+//@   ensures wf: spec_readerWF(r)
+//@   ensures samebuf: r.data == old(r.data)
+//@   ensures count: 0 <= n && n <= len(bs)
+//@   ensures full: err == nil ==> n == len(bs)
+//@   assigns r, r.data, bs
+//@   loop 1 invariant wf: spec_readerWF(r)
+//@   loop 1 assigns r, r.data, bs
+
+//@ func (*Reader).ReadByte
+//@   requires spec_readerWF(r)
+//@   ensures wf: spec_readerWF(r)
+//@   ensures samebuf: r.data == old(r.data)
+//@   assigns r, r.data
+
+//@ func (*Reader).ReadUint16
+//@   requires spec_readerWF(r)
+//@   ensures wf: spec_readerWF(r)
+//@   ensures samebuf: r.data == old(r.data)
+//@   assigns r, r.data
+
+//@ func (*Reader).ReadUint32
+//@   requires spec_readerWF(r)
+//@   ensures wf: spec_readerWF(r)
+//@   ensures samebuf: r.data == old(r.data)
+//@   assigns r, r.data
+
+//@ func (*Reader).ReadUint64
+//@   requires spec_readerWF(r)
+//@   ensures wf: spec_readerWF(r)
+//@   ensures samebuf: r.data == old(r.data)
+//@   assigns r, r.data
